@@ -81,7 +81,18 @@ BATCHES = [(), (), (), (1,), (2,), (3,), (1, 1), (2, 1), (1, 3), (2, 3), (2, 1, 
 # ------------------------------------------------------------------------------------------------------------------
 # known-findings switch (generator side): triggers of *open* C20 entries are avoided by construction
 # ------------------------------------------------------------------------------------------------------------------
+_AVOID = None
+
+
 def _open_triggers():
+    """Triggers of open C20 findings (+ LOV_C20_EXCLUDE, a development switch); read once per process."""
+    global _AVOID
+    if _AVOID is None:
+        _AVOID = frozenset(_read_open_triggers())
+    return _AVOID
+
+
+def _read_open_triggers():
     from lov.findings import load
 
     names = set(t for t in os.environ.get("LOV_C20_EXCLUDE", "").split(",") if t)
@@ -209,10 +220,17 @@ def g_sym_toeplitz_matmul(draw, avoid):
     return _g_tmm(draw, avoid, True)
 
 
+def _dqf_doc_says_s_by_m():
+    """The pinned docstring documents the matrix argument as 's x m' (the code and its only caller use m x s)."""
+    from linear_operator.utils import toeplitz as T
+
+    return "matrix s x m" in (T.sym_toeplitz_derivative_quadratic_form.__doc__ or "")
+
+
 def g_dqf(draw, avoid):
     dt, m = _dt(draw), draw(st.integers(1, 6))
     orient = ["vector", "caller", "caller"]
-    if "dqf_docstring_orientation" not in avoid:
+    if "dqf_docstring_orientation" not in avoid and _dqf_doc_says_s_by_m():
         orient.append("doc")
     o = draw(st.sampled_from(orient))
     if o == "vector":
@@ -676,6 +694,9 @@ def r_dqf(case):
     u, u64 = L.materialise(case["left"]), L.value(case["left"], F64)
     v, v64 = L.materialise(case["right"]), L.value(case["right"], F64)
     cell = "orient:" + o
+    if o == "doc" and not _dqf_doc_says_s_by_m():
+        # the docstring no longer documents the s x m layout: this (corpus) case is outside the documented domain
+        return {"labels": ["orient:doc_no_longer_documented"], "nontrivial": False}
     # bring to (..., s, m): one row per vector pair
     if o == "vector":
         U, V = u64.unsqueeze(0), v64.unsqueeze(0)
@@ -803,7 +824,7 @@ def r_spmm(case):
     D, Da = _ref(lambda: _sp_dense(case["sp"])), _ref(lambda: _sp_dense(case["sp"], True))
     x, x64 = L.materialise(case["dense"]), L.value(case["dense"], F64)
     sb, db = tuple(sp.shape[:-2]), tuple(x.shape[:-2])
-    cell = "sparse:%s|dense:%s" % ("batch" if sb else "2d", "batch" if db else "2d")
+    cell = "sparse:%s,dense:%s" % ("batch" if sb else "2d", "batch" if db else "2d")
     inner = max(1, len(case["sp"]["val"]["lit"]))
     before = sp.to_dense()
     if fn == "dsmm_grad":
